@@ -190,8 +190,10 @@ let kvhist (type v) (cfg : v cfg) (rn : v runner) (vacuum_prog : (z list -> v ha
     { f_kind = kind; f_pfx = pf; f_name = name; f_occ = occ; f_out = o } in
   let pr_cv (c : v cval) = pr_z c.md; pr_z c.tomb; pr_vname c.prev; pr_payload c.md c.payload in
   let nops = rd_int () in
+  let opno = ref 0 in
+  let lies : int list ref = ref [] in
   for _ = 1 to nops do
-    pr ";";
+    pr ";"; incr opno;
     let rec opname () = match next () with
       | "F" -> plan := !plan @ [ rd_fault () ]; any_fault := true; opname ()
       | s -> s in
@@ -218,7 +220,20 @@ let kvhist (type v) (cfg : v cfg) (rn : v runner) (vacuum_prog : (z list -> v ha
         let h = rd_int () in let corder = rd_vnames () in
         let (r, tr) = exec (commit corder (geth h)) in
         (match r with
-         | Done (h', COk nmo) -> seth h h'; pr "ok"; pr_vname (match nmo with Some n -> n | None -> Z0)
+         | Done (h', COk nmo) -> seth h h'; pr "ok"; pr_vname (match nmo with Some n -> n | None -> Z0);
+             (* specification: what an acknowledged commit promises — the handle's contents are what
+                a later open of the version it names finds in the bucket *)
+             let stored =
+               (match nmo with
+                | None -> Some []
+                | Some n ->
+                    (match Stdlib.List.assoc_opt n (!b.b_cur @ !b.b_merged) with
+                     | Some (OVer v) ->
+                         (match v.v_link with
+                          | None -> Some []
+                          | Some l -> (match Stdlib.List.assoc_opt l !b.b_node with Some (ONode t) -> Some t | _ -> None))
+                     | _ -> None)) in
+             if not (geth h).h_ro && stored <> Some (kv_dump h') then lies := (!opno) :: !lies
          | Done (h', CFail _) -> seth h h'; pr "err"
          | _ -> pr "err");
         pr_trace tr "[" "]"
@@ -302,7 +317,12 @@ let kvhist (type v) (cfg : v cfg) (rn : v runner) (vacuum_prog : (z list -> v ha
         pr "{n"; pr_list pr_nname (o_names !b.b_node); pr "}"
     | s -> failwith ("unknown_kv_op_" ^ s)
   done;
-  if cfg.c_mode = z_of_small 2 && not !any_fault then (pr ";"; pr_z !conflicts)
+  if cfg.c_mode = z_of_small 2 && not !any_fault then (pr ";"; pr_z !conflicts);
+  (* after ' | ': the operations at which an acknowledged commit left the handle's contents
+     unreadable from the bucket (spec view; finding F-C14-1) *)
+  if !lies <> [] then begin
+    pr "|"; Stdlib.List.iter (fun i -> pr ("LIE:" ^ string_of_int i)) (Stdlib.List.rev !lies)
+  end
 
 (* ---------- scheduled concurrency (L1, C03) ----------
    Names are the model's own: the k-th distinct object PUT gets name k (hashing happens together
